@@ -56,6 +56,12 @@ impl Oracle {
         let toks: Vec<&str> = line.split_whitespace().collect();
         if toks.is_empty() { return "ok".into(); }
         match (prop, toks[0]) {
+            (_, "tbl") => {
+                // tables of the code against the oracle's own transcription of the standard's tables
+                let i: u64 = toks[2].parse().unwrap_or(0);
+                let got = crate::tables::row(toks[1], i);
+                match crate::tables::expected_row(toks[1], i) { Some(w) if w != got => format!("FAIL table {} at {}: the code gives [{}], the standard's table gives [{}]", toks[1], i, got, w), _ => "ok".into() }
+            }
             ("C01", "annexb") => self.c01(&toks[1..]),
             ("C18", "annexb") => self.c18(&toks[1..]),
             ("C02", "rbsp") => self.c02_rbsp(&toks[1..], line),
